@@ -997,6 +997,23 @@ OPTION_SETS = [
 ]
 
 
+# the METHOD of the POSTed message is a dimension of every scenario: nothing in the property depends on it
+METHODS = ["initialize", "ping", "tools/list", "notifications/initialized", "totally/unknown", "", "tools/call", "Initialize",
+           "initialize ", "notifications/cancelled", "resources/read", "logging/setLevel", "shutdown", "notifications/message"]
+
+
+def with_methods(case, k):
+    """every request of the case gets a method from METHODS (rotating with the case number and the position)"""
+    reqs = []
+    changed = False
+    for j, r in enumerate(case["reqs"]):
+        if r.get("garbage") is None and r.get("method") is None:
+            r = dict(r, method=METHODS[(k * 5 + j * 3) % len(METHODS)])
+            changed = True
+        reqs.append(r)
+    return dict(case, reqs=reqs) if changed else case
+
+
 def decorate(cases, salt=0):
     """cross the cases with the options of StreamableHTTPParameters and with DEBUG logging: case k gets
     option set k mod |OPTION_SETS| (merged under an explicit cfg) and every fourth case runs with the
@@ -1010,6 +1027,8 @@ def decorate(cases, salt=0):
         if (k + salt) % 4 == 1:
             c = dict(c)
             c["debug"] = True
+        if (k + salt) % 3 != 2:       # a third of the cases keeps the harness's default methods
+            c = with_methods(c, k + salt)
         out.append(c)
     return out
 
@@ -1287,6 +1306,28 @@ def partial_batches(quick=True):
     return out
 
 
+def method_session_cases(quick=True):
+    """session-header sequences with every method at every position: an id issued by an earlier reply or configured
+    through session_id must go out with EVERY later request, whatever its method"""
+    out = []
+    n = 0
+    issuers = [0, 4, 8, 17]      # letters of the alphabet that issue a session id (200 JSON, 200 SSE, 202 empty, 301)
+    for m in METHODS:
+        for pos in (0, 1, 2):
+            for s0 in (None, "sess-cfg"):
+                n += 1
+                word = [2, 2, 2]
+                word[(pos + 2) % 3] = issuers[n % len(issuers)]
+                c = sequence(tuple(word), rot=n % 6, session0=s0)
+                c["reqs"][pos] = dict(c["reqs"][pos], method=m)
+                for j, r in enumerate(c["reqs"]):
+                    if j != pos:
+                        c["reqs"][j] = dict(r, method=METHODS[(n + j) % len(METHODS)])
+                c["hk"] = "method-x-session"
+                out.append(c)
+    return out
+
+
 def shared_parameter_cases(quick=True):
     """2-3 connections built from ONE parameters object — side by side and one after the other (a reconnect) — and from
     equal-but-distinct objects; the server issues every connection its own session ids, or none"""
@@ -1416,6 +1457,7 @@ def hardening3(rng, budget):
         c["hk"] = "unicode-twin-ids"
         out.append(c)
     out += shared_parameter_cases(quick)
+    out += method_session_cases(quick)
     return decorate(out, salt=9)
 
 
